@@ -4,7 +4,7 @@
    rooted tree (connected, |E| = |V| - 1), the mass is the sum of the residue masses.  For every
    input, pick stream and target list.  (Sanitisation / hydrogens: RDKit, oracle-checked only.) *)
 From Coq Require Import List ZArith QArith Ascii String Bool.
-From GBS Require Import Model.PyStr Model.Num Model.Bond Model.Select Model.Gen Proofs.BondP Proofs.GenP Props.GenExample.
+From GBS Require Import Model.PyStr Model.Num Model.Bond Model.Select Model.Gen Proofs.BondP Proofs.GenP Props.GenExample Src.SrcAttach Proofs.AttachSrcP.
 Import ListNotations.
 
 (* the atoms are exactly the atoms of the residues, concatenated in creation order *)
@@ -50,6 +50,16 @@ Theorem C05_mass_additive : forall els pk tg g infos st,
   m_mass g == total (map mass_of (m_res g)).
 Proof. intros els pk tg g infos st H. apply run_gen_inv in H as [H _]. apply (gi_mass _ _ H). Qed.
 Print Assumptions C05_mass_additive.
+
+(* tie T: the attach step (one residue added whole, one bond, the two descriptors consumed) rebuilt from mol_gen.py's regenerated decisions is
+   the model's; MolGen.fully_generated is "no open descriptor left" *)
+Theorem C05_attach_is_source : forall g i tok ref j, attach_src g i tok ref j = attach g i tok ref j.
+Proof. exact attach_is_source. Qed.
+Print Assumptions C05_attach_is_source.
+
+Theorem C05_fully_generated_is_source : forall n, fully_generated_src n = Nat.eqb n 0.
+Proof. exact fully_generated_is_source. Qed.
+Print Assumptions C05_fully_generated_is_source.
 
 Example C05_example :
   match run_gen ex2_els ex2_picks ex2_targets with
